@@ -56,11 +56,63 @@ func c16Flags() ([][3]string, error) {
 	return out, nil
 }
 
+// the template flavours of cmd/minify: media type -> delimiters (README "Templates"; the registry facts are `cli_registry_ok`)
+var c16TemplateDelims = map[string][2]string{
+	"text/asp": {"<%", "%>"}, "text/x-ejs-template": {"<%", "%>"}, "application/x-httpd-php": {"<?", "?>"},
+	"text/x-go-template": {"{{", "}}"}, "text/x-mustache-template": {"{{", "}}"}, "text/x-handlebars-template": {"{{", "}}"},
+}
+
+var c16ExtRe = regexp.MustCompile(`\("([a-z0-9]+)", "([^"]+)"\)`)
+
+func c16ExtMap() ([][2]string, error) {
+	b, err := os.ReadFile(filepath.Join(h.Root(), "lean", "Verif", "Gen", "CliExtMap.lean"))
+	if err != nil {
+		return nil, err
+	}
+	var out [][2]string
+	for _, m := range c16ExtRe.FindAllSubmatch(b, -1) {
+		out = append(out, [2]string{string(m[1]), string(m[2])})
+	}
+	if len(out) == 0 {
+		return nil, fmt.Errorf("CliExtMap.lean: no extensions found")
+	}
+	return out, nil
+}
+
+// c16CLILib is what the command is documented to do for one media type: the six minifiers with the given option structs
+// (missing kinds: defaults), the template flavours being the html options plus their delimiters
+func c16CLILib(opts map[string]any, mime string, doc []byte) ([]byte, error) {
+	get := func(kind string) minify.Minifier {
+		if o, ok := opts[kind]; ok {
+			return o.(minify.Minifier)
+		}
+		return c16New(kind).(minify.Minifier)
+	}
+	m := minify.New()
+	m.Add("text/css", get("css"))
+	hm := get("html").(*minhtml.Minifier)
+	m.Add("text/html", hm)
+	m.Add("image/svg+xml", get("svg"))
+	m.AddRegexp(regexp.MustCompile("^(application|text)/(x-)?(java|ecma|j|live)script(1\\.[0-5])?$|^module$"), get("js"))
+	m.AddRegexp(regexp.MustCompile("[/+]json$"), get("json"))
+	m.AddRegexp(regexp.MustCompile("[/+]xml$"), get("xml"))
+	for mt, dl := range c16TemplateDelims {
+		t := *hm
+		t.TemplateDelims = dl
+		m.Add(mt, &t)
+	}
+	var out bytes.Buffer
+	err := m.Minify(mime, &out, bytes.NewReader(append([]byte(nil), doc...)))
+	return out.Bytes(), err
+}
+
 var c16Types = map[string]string{"css": "text/css", "html": "text/html", "js": "application/javascript", "json": "application/json", "svg": "image/svg+xml", "xml": "text/xml"}
 
 var c16Seeds = map[string][]string{
 	"html": {`<!DOCTYPE html><html><head><title>T</title><!-- c --><script type="text/javascript">var a = 1;</script></head><body><p class="x">Hello <b>w</b>  <i>z</i> </p><ul><li>a</li><li>b</li></ul><form method="get"><input type="text" value=""></form><!--[if IE]> x <![endif]--><table><tr><td>1</td></tr></table></body></html>`,
-		`<div> <span> a </span> <span>b</span> </div> <p>x</p>`},
+		`<div> <span> a </span> <span>b</span> </div> <p>x</p>`,
+		"<pre><!--c-->\nx</pre><pre><!--[if IE]>a<![endif]-->\ny</pre><pre><!--# include file=\"a\" -->\nz</pre><textarea><!-- t -->\n a </textarea><title> <!-- t --> T </title><p>a <!-- c1 --> <b>b</b><!-- c2 --> <i>c</i> <!--[if IE]> <p>ie</p> <![endif]--> d</p> <!-- c3 --> <div>e</div><!-- c4 --><div> f </div> <!--# echo var=\"X\" --> g",
+		"<p>x</p><!-- c --><div>y</div><ul><li>a</li><!-- c --><li>b</li></ul><select><!-- s --><option>1</option></select>"},
 	"css":  {`a{margin:10.0px 1000000px;color:transparent;background-color:transparent;width:1e3px;height:0.00001em;opacity:.50;top:100000%}`},
 	"js":   {"function f(alpha,beta){try{g()}catch(e){h()}var s='a\\nb\\nc';return alpha==null?beta:alpha}var k=Math.pow(f(1,2),2);", "let q=a?.b??c;let r=x**2;let t=`x${q}`;try{}catch{}",
 		"x=a==null?undefined:a.b;y=b==null?void 0:b.c();z=c==null?undefined:c[0];w=d===null||d===undefined?undefined:d.e"},
@@ -124,7 +176,7 @@ func init() {
 			return err
 		}
 		// ---- stage cli-flags ----
-		st := c.R.StartStage("cli-flags", "every CLI flag of the regenerated flag table through the built cmd/minify binary (stdin, --type) vs the library with the option field named in the table set by reflection (bool flags: on; numeric flags: several values); non-trivial = the flag changes the output for the seed document")
+		st := c.R.StartStage("cli-flags", "every CLI flag of the regenerated flag table x every file type of the regenerated extension table (incl. the template types asp/ejs/php/gohtml/tmpl/mustache/handlebars) through the built cmd/minify binary (stdin, --type=ext) vs the library registry in which the option field named in the table is set by reflection and the template flavours are copies of the html options with their delimiters (bool flags: on; numeric flags: several values); non-trivial = the flag changes the output for the document")
 		dir, err := os.MkdirTemp("", "verif-c16-")
 		if err != nil {
 			return err
@@ -136,43 +188,83 @@ func init() {
 		if out, err := build.CombinedOutput(); err != nil {
 			return fmt.Errorf("building cmd/minify: %v\n%s", err, out)
 		}
+		exts, err := c16ExtMap()
+		if err != nil {
+			return err
+		}
+		kindOfMime := func(mime string) string {
+			for k, mt := range c16Types {
+				if mt == mime {
+					return k
+				}
+			}
+			switch {
+			case c16TemplateDelims[mime][0] != "":
+				return "html"
+			case strings.HasSuffix(mime, "json"):
+				return "json"
+			case strings.HasSuffix(mime, "/xml") || strings.HasSuffix(mime, "+xml"):
+				return "xml"
+			}
+			return ""
+		}
 		for _, fl := range flags {
 			flag, kind, field := fl[0], fl[1], fl[2]
-			for _, doc := range c16Seeds[kind] {
-				o := c16New(kind)
-				fv := reflect.ValueOf(o).Elem().FieldByName(field)
-				if !fv.IsValid() {
-					c.R.Add(h.Finding{Stage: st.Name, Kind: "fail", What: "CLI flag --" + flag + " is bound to a field that does not exist: " + kind + "." + field})
-					continue
-				}
-				var vals []string
-				if fv.Kind() == reflect.Bool {
-					vals = []string{""}
-				} else if strings.HasSuffix(flag, "version") {
-					vals = []string{"5", "2015", "2019", "2020", "2022"}
-				} else {
-					vals = []string{"1", "3", "6"}
-				}
-				base, _ := c16Lib(kind, c16New(kind), []byte(doc))
-				for _, v := range vals {
-					arg := "--" + flag
-					if v == "" {
-						fv.SetBool(true)
-					} else {
-						n, _ := strconv.Atoi(v)
-						fv.SetInt(int64(n))
-						arg += "=" + v
+			if fv := reflect.ValueOf(c16New(kind)).Elem().FieldByName(field); !fv.IsValid() {
+				c.R.Add(h.Finding{Stage: st.Name, Kind: "fail", What: "CLI flag --" + flag + " is bound to a field that does not exist: " + kind + "." + field})
+				continue
+			}
+			isBool := reflect.ValueOf(c16New(kind)).Elem().FieldByName(field).Kind() == reflect.Bool
+			var vals []string
+			if isBool {
+				vals = []string{""}
+			} else if strings.HasSuffix(flag, "version") {
+				vals = []string{"5", "2015", "2019", "2020", "2022"}
+			} else {
+				vals = []string{"1", "3", "6"}
+			}
+			for _, em := range exts {
+				ext, mime := em[0], em[1]
+				dk := kindOfMime(mime)
+				var docs []string
+				if dk == "" {
+					docs = []string{"<a> x </a>"}
+				} else if dk == kind {
+					docs = append(docs, c16Seeds[dk]...)
+					if dl := c16TemplateDelims[mime]; dl[0] != "" {
+						docs = append(docs, `<html><head><title>T</title></head><body><!-- c --><p class="`+dl[0]+` .C `+dl[1]+`">a `+dl[0]+` if .X `+dl[1]+` <b> b </b> `+dl[0]+` end `+dl[1]+`</p><ul><li>x</li></ul><form method="get"><input type="text" value=""></form></body></html>`)
 					}
-					want, lerr := c16Lib(kind, o, []byte(doc))
-					cmd := exec.Command(exe, "--type="+kind, arg)
-					cmd.Stdin = strings.NewReader(doc)
-					var stdout, stderr bytes.Buffer
-					cmd.Stdout, cmd.Stderr = &stdout, &stderr
-					cerr := cmd.Run()
-					key := fmt.Sprintf("minify --type=%s %s < %q", kind, arg, doc)
-					st.Count(key, !bytes.Equal(want, base))
-					if (cerr != nil) != (lerr != nil) || (lerr == nil && !bytes.Equal(stdout.Bytes(), want)) {
-						c.R.Add(h.Finding{Stage: st.Name, Kind: "fail", What: "CLI flag --" + flag + " does not have the effect of option " + kind + "." + field, Input: key, Impl: h.Q(stdout.Bytes()) + " " + stderr.String(), Model: h.Q(want)})
+				} else {
+					docs = c16Seeds[dk][:1]
+				}
+				if dk != kind && len(vals) > 1 {
+					vals = vals[:1]
+				}
+				for _, doc := range docs {
+					base, _ := c16CLILib(map[string]any{}, mime, []byte(doc))
+					for _, v := range vals {
+						o := c16New(kind)
+						fv := reflect.ValueOf(o).Elem().FieldByName(field)
+						arg := "--" + flag
+						if v == "" {
+							fv.SetBool(true)
+						} else {
+							n, _ := strconv.Atoi(v)
+							fv.SetInt(int64(n))
+							arg += "=" + v
+						}
+						want, lerr := c16CLILib(map[string]any{kind: o}, mime, []byte(doc))
+						cmd := exec.Command(exe, "--type="+ext, arg)
+						cmd.Stdin = strings.NewReader(doc)
+						var stdout, stderr bytes.Buffer
+						cmd.Stdout, cmd.Stderr = &stdout, &stderr
+						cerr := cmd.Run()
+						key := fmt.Sprintf("minify --type=%s %s < %q", ext, arg, doc)
+						st.Count(key, !bytes.Equal(want, base))
+						st.Tag(ext)
+						if (cerr != nil) != (lerr != nil) || (lerr == nil && !bytes.Equal(stdout.Bytes(), want)) {
+							c.R.Add(h.Finding{Stage: st.Name, Kind: "fail", What: "CLI flag --" + flag + " on a ." + ext + " input (" + mime + ") does not have the effect of option " + kind + "." + field, Input: h.Q([]byte(doc)), Hex: h.HexS(doc), Config: "minify --type=" + ext + " " + arg, Impl: h.Q(stdout.Bytes()) + " " + stderr.String(), Model: h.Q(want)})
+						}
 					}
 				}
 			}
@@ -434,6 +526,34 @@ func c16Honoured(c *Ctx, open map[string]bool) {
 			if b["KeepWhitespace"] {
 				check(cfg, in, out, "html.KeepWhitespace=on", c16OracleKeepWhitespace(din, dout))
 			}
+			check(cfg, in, out, "html.*=pre-text", c16OraclePreText(in.doc, out))
+		}
+		// the comment options do nothing else: same document, comments ignored, as with the three comment bits cleared
+		for _, mk := range masks {
+			if mk&7 == 0 || outs[mk] == nil {
+				continue
+			}
+			off, ok := outs[mk&^7]
+			cfg := c16Cfg{kind: "html", bools: map[string]bool{}, ints: map[string]int{}}
+			for i, n := range c16HTMLBools {
+				cfg.bools[n] = mk>>i&1 == 1
+			}
+			if !ok {
+				cfgOff := c16Cfg{kind: "html", bools: map[string]bool{}, ints: map[string]int{}}
+				for i, n := range c16HTMLBools {
+					cfgOff.bools[n] = (mk&^7)>>i&1 == 1
+				}
+				if off, ok = run(cfgOff, in, ""); !ok {
+					continue
+				}
+				outs[mk&^7] = off
+			}
+			for i, n := range c16HTMLBools[:3] {
+				if mk>>i&1 == 1 {
+					check(cfg, in, outs[mk], "html."+n+"=nothing-else", c16OracleNothingElse(outs[mk], off))
+					break
+				}
+			}
 		}
 		// KeepConditionalComments is KeepSpecialComments (deprecated alias): same bytes for the same other options
 		for _, mk := range masks {
@@ -657,7 +777,7 @@ func c16Honoured(c *Ctx, open map[string]bool) {
 		parts = append(parts, fmt.Sprintf("%s:%d", k, judged[k]))
 	}
 	c.R.Note("honoured: cases judged per option value — %s", strings.Join(parts, " "))
-	for _, want := range []string{"html.KeepComments=on", "html.KeepConditionalComments=on", "html.KeepConditionalComments=alias", "html.KeepSpecialComments=on", "html.KeepDefaultAttrVals=on",
+	for _, want := range []string{"html.KeepComments=on", "html.KeepConditionalComments=on", "html.KeepConditionalComments=alias", "html.KeepComments=nothing-else", "html.KeepConditionalComments=nothing-else", "html.KeepSpecialComments=nothing-else", "html.*=pre-text", "html.KeepSpecialComments=on", "html.KeepDefaultAttrVals=on",
 		"html.KeepDocumentTags=on", "html.KeepEndTags=on", "html.KeepQuotes=on", "html.KeepWhitespace=on", "html.TemplateDelims={{}}", "html.TemplateDelims=<%%>", "html.TemplateDelims=<??>",
 		"js.KeepVarNames=on", "js.Version=5", "js.Version=2015", "js.Version=2016", "js.Version=2019", "js.Version=2020", "js.Version=2022", "js.Precision=0", "css.KeepCSS2=on", "css.Inline=on",
 		"css.Precision=0", "css.Precision=3", "json.KeepNumbers=on", "json.Precision=0", "json.Precision=1", "json.Precision=17", "svg.KeepComments=on", "svg.Inline=on", "svg.Precision=0", "svg.Precision=3",
